@@ -34,7 +34,7 @@ S0(salt0) == [
   told |-> {salt0}, stored |-> {}, now |-> 0, prev |-> salt0, everValid |-> {},
   rst |-> [k \in K |-> "none"], icancel |-> [k \in K |-> FALSE],
   due |-> [k \in K |-> -1], nbad |-> [k \in K |-> 0], resent |-> [k \in K |-> 0],
-  deliv |-> {}, named |-> {}, must |-> {}, upds |-> {}, allUpds |-> {}, seenUpd |-> {},
+  accN |-> {}, deliv |-> {}, named |-> {}, must |-> {}, upds |-> {}, allUpds |-> {}, seenUpd |-> {},
   lastId |-> <<0, -1>>, content |-> 0]
 
 Init == i = 1 /\ tr = -1 /\ s = S0(0)
@@ -83,6 +83,17 @@ Sessions(m) ==
   ELSE IF m.t = "session" THEN {m.salt}
   ELSE {}
 
+\* C07: a server message is processed only if its header is acceptable (a replay of a message that was itself
+\* dropped is not judged)
+HAcc(e) ==
+  IF ~Has(e, "hdr") THEN TRUE
+  ELSE LET h == e.hdr IN
+       /\ ~Has(h, "session") /\ ~Has(h, "key")
+       /\ (Has(h, "idtype") => h.idtype \in {1, 3})
+       /\ (Has(h, "offset") => (h.offset >= -300 /\ h.offset <= 30))
+       /\ (Has(h, "padn") => (h.padn >= 12 /\ h.padn <= 1024 /\ ~h.unaligned))
+       /\ (Has(h, "replay") => h.replay \notin s.accN)
+
 \* whatever the driver does next, everything that had to complete has completed (the driver waits for quiescence)
 Settled ==
   /\ (Check = "C23") => \A k \in s.must : s.rst[k] = "done"
@@ -106,9 +117,11 @@ Step ==
      /\ s' = s
   \/ /\ Ev.ev = "srv" /\ Settled
      /\ LET m == Ev.msg
-            eff == Eff(m)
-            pg == Pongs(m)
-            ses == Sessions(m)
+            live == HAcc(Ev)
+            eff == IF live THEN Eff(m) ELSE {}
+            pg == IF live THEN Pongs(m) ELSE {}
+            ses == IF live THEN Sessions(m) ELSE {}
+            newSalts == IF live THEN Salts(m) ELSE {}
             bs == {e \in eff : e.kind = "badsalt"}
             decisive == {e.k : e \in {x \in eff : x.kind \in {"ok", "rpc", "badmsg"}}}
             firstBad == {e \in bs : s.rst[e.k] = "sent" /\ s.nbad[e.k] = 0}
@@ -116,8 +129,9 @@ Step ==
         IN s' = [s EXCEPT
              !.ppong = [k \in K |-> @[k] \/ (k \in pg /\ s.pst[k] = "sent")],
              !.loopOut = IF 0 \in pg THEN FALSE ELSE @,
-             !.stored = @ \cup Salts(m),
-             !.everValid = @ \cup {f.salt : f \in {g \in (s.stored \cup Salts(m)) : g.until > s.now + 300}},
+             !.stored = @ \cup newSalts,
+             !.accN = IF live /\ Has(Ev, "n") THEN @ \cup {Ev.n} ELSE @,
+             !.everValid = @ \cup {f.salt : f \in {g \in (s.stored \cup newSalts) : g.until > s.now + 300}},
              !.told = IF ses # {} THEN ses ELSE (IF bs # {} THEN (IF firstBad # {} THEN {e.salt : e \in firstBad} ELSE @ \cup {e.salt : e \in bs}) ELSE @),
              !.due = [k \in K |-> IF \E e \in firstBad : e.k = k THEN (CHOOSE e \in firstBad : e.k = k).salt ELSE @[k]],
              !.nbad = [k \in K |-> IF \E e \in bs : e.k = k /\ s.rst[k] = "sent" THEN @[k] + 1 ELSE @[k]],
@@ -160,7 +174,7 @@ Step ==
            \/ Ev.res \notin {"ok", "ctx"} /\ (s.ended \/ s.endReq)
      /\ s' = [s EXCEPT !.pst[Ev.k] = "done"]
   \/ /\ Ev.ev = "done"
-     /\ (Check = "C23") =>
+     /\ (Check \in {"C23", "C07"}) =>
            \/ Ev.res = "ok" /\ Len(Ev.tags) = 1 /\ [kind |-> "ok", k |-> Ev.k, tag |-> Ev.tags[1]] \in s.deliv
            \/ Ev.res = "ok" /\ [kind |-> "garbage", k |-> Ev.k] \in s.deliv
            \/ Ev.res = "ctx" /\ (s.icancel[Ev.k] \/ s.endReq)
@@ -169,12 +183,12 @@ Step ==
            \/ Ev.res = "badsalt" /\ \E e \in s.deliv : e.kind = "badsalt" /\ e.k = Ev.k
            \/ /\ Ev.res \notin {"ok", "ctx", "closed", "retrylimit", "badmsg", "badsalt"}
               /\ Ev.k \in s.named
-     /\ (Check = "C23") => \/ [kind |-> "garbage", k |-> Ev.k] \in s.deliv
+     /\ (Check \in {"C23", "C07"}) => \/ [kind |-> "garbage", k |-> Ev.k] \in s.deliv
                             \/ \A j \in 1..Len(Ev.tags) : [kind |-> "ok", k |-> Ev.k, tag |-> Ev.tags[j]] \in s.deliv
      /\ (Check = "C41" /\ Ev.res = "badsalt") => s.nbad[Ev.k] >= 2
      /\ s' = [s EXCEPT !.rst[Ev.k] = "done", !.due[Ev.k] = -1]
   \/ /\ Ev.ev = "onmessage"
-     /\ (Check = "C23") => (Ev.tag = -1 \/ Ev.tag \in s.allUpds)
+     /\ (Check \in {"C23", "C07"}) => (Ev.tag = -1 \/ Ev.tag \in s.allUpds)
      /\ s' = [s EXCEPT !.seenUpd = @ \cup {Ev.tag}]
   \/ /\ Ev.ev = "onsession" /\ s' = s
   \/ /\ Ev.ev = "runend"
